@@ -113,6 +113,26 @@ impl Hist {
 			}
 		}
 		snap["contexts"] = json!(self.contexts(i));
+		let infos: Vec<Value> = [0u64, 1, 3]
+			.iter()
+			.map(|mc| {
+				let r = guarded(|| {
+					self.s.with(i, |b, _| {
+						let pk = b.parent_key_id();
+						updater::retrieve_info(b, &pk, *mc)
+					})
+				});
+				match r {
+					Ok(Ok(wi)) => json!([mc, wi.amount_currently_spendable.to_string(), wi.amount_immature.to_string(),
+						wi.amount_awaiting_confirmation.to_string(), wi.amount_awaiting_finalization.to_string(),
+						wi.amount_locked.to_string(), wi.amount_reverted.to_string(), wi.total.to_string(),
+						wi.last_confirmed_height]),
+					Ok(Err(_)) => json!([mc, "err"]),
+					Err(_) => json!([mc, "panic"]),
+				}
+			})
+			.collect();
+		snap["info"] = json!(infos);
 		self.steps[i].push(json!({"op": op, "rc": rc, "snap": snap, "extra": extra}));
 	}
 	fn active(&self, i: usize) -> u64 {
@@ -299,11 +319,22 @@ impl Hist {
 			None
 		};
 		let dest_name = dest.and_then(acct_name);
+		// a peer may put any amount / cutoff in the slate it delivers
+		let mut s1 = s1;
+		let tampered = self.p.chance(if self.profile == "c07" { 2 } else { 1 }, 8);
+		if tampered {
+			match self.p.below(4) {
+				0 => s1.amount = 0,
+				1 => s1.amount = u64::MAX,
+				2 => s1.amount = s1.amount.wrapping_add(self.p.range(1, 1000)),
+				_ => s1.ttl_cutoff_height = self.p.below(self.s.node.height() + 3),
+			}
+		}
 		let r = guarded(|| self.s.with(r_i, |b, m| foreign::receive_tx(b, m, &s1, dest_name, false)));
 		let rc = rc_of(&r);
 		let crypto_ok = !(rc.len() == 2 && rc[1] == 17);
 		if let Ok(Ok(s2)) = &r {
-			if r_i != sender {
+			if r_i != sender && !tampered {
 				self.flights[f].s2 = Some(s2.clone());
 			}
 		}
@@ -316,7 +347,7 @@ impl Hist {
 			json!({"k": "receive", "slate": num, "amount": s1.amount.to_string(), "ttl": s1.ttl_cutoff_height,
 				"dest": dest, "crypto_ok": crypto_ok}),
 			rc,
-			json!({"foreign": true, "reply_participants": reply_parts}),
+			json!({"foreign": true, "reply_participants": reply_parts, "tampered": tampered}),
 		);
 	}
 	fn lock(&mut self, f: usize) {
@@ -364,6 +395,34 @@ impl Hist {
 		};
 		let tip = self.s.node.height();
 		let via_foreign = self.p.chance(1, 4);
+		// sometimes the reply is not validly counter-signed (forged / tampered by a peer)
+		let forged = self.p.chance(if self.profile == "c07" { 2 } else { 1 }, 6);
+		let mut s2 = s2;
+		if forged {
+			match self.p.below(3) {
+				0 => {
+					// swap the recipient's partial signature for the sender's own (invalid for that key)
+					let other = s2.participant_data.len() - 1;
+					let first = s2.participant_data[0].part_sig.clone();
+					if s2.participant_data[other].part_sig.is_some() && first.is_some() && other != 0 {
+						s2.participant_data[other].part_sig = first;
+					} else {
+						s2.participant_data[other].part_sig = None;
+					}
+				}
+				1 => {
+					// drop the recipient's signature
+					for pd in s2.participant_data.iter_mut() {
+						pd.part_sig = None;
+					}
+				}
+				_ => {
+					// replace the recipient's public nonce by its public excess
+					let other = s2.participant_data.len() - 1;
+					s2.participant_data[other].public_nonce = s2.participant_data[other].public_blind_excess;
+				}
+			}
+		}
 		let r = guarded(|| {
 			self.s.with(sender, |b, m| {
 				if via_foreign {
@@ -374,7 +433,7 @@ impl Hist {
 			})
 		});
 		let rc = rc_of(&r);
-		let crypto_ok = !(rc.len() == 2 && (rc[1] == 17));
+		let crypto_ok = !(rc.len() == 2 && (rc[1] == 17 || rc[1] == 21 && forged));
 		let mut tx_inputs = json!(null);
 		if let Ok(Ok(fin)) = &r {
 			self.flights[f].fin = Some(fin.clone());
@@ -404,7 +463,7 @@ impl Hist {
 			json!({"k": "finalize", "slate": num, "ttl": s2.ttl_cutoff_height, "tip": tip,
 				"state_ok": s2.state == SlateState::Standard2, "crypto_ok": crypto_ok}),
 			rc,
-			json!({"tx_inputs": tx_inputs, "foreign": via_foreign}),
+			json!({"tx_inputs": tx_inputs, "foreign": via_foreign, "forged": forged}),
 		);
 	}
 	fn post(&mut self, f: usize) {
@@ -462,6 +521,21 @@ impl Hist {
 			rc,
 			json!({"foreign": true}),
 		);
+	}
+
+	/// owner::update_wallet_state (refresh + kernel lookups + incremental scan + TTL expiry);
+	/// not followed by the model (scan is outside it): used for the C17 expiry oracle only.
+	fn update_state(&mut self, i: usize) {
+		let tip = self.s.node.height();
+		let inst = self.s.wallets[i].inst.clone();
+		let mask = self.s.wallets[i].mask.clone();
+		let r = guarded(|| owner::update_wallet_state(inst, mask.as_ref(), &None, false));
+		let rc = match &r {
+			Err(_) => vec![2],
+			Ok(Err(e)) => vec![1, err_class(e)],
+			Ok(Ok(_)) => vec![0],
+		};
+		self.record(i, json!({"k": "update_state", "tip": tip}), rc, json!({"nomodel": true}));
 	}
 
 	fn step(&mut self) {
@@ -555,6 +629,9 @@ fn main() {
 		}
 		for _ in 0..n_steps {
 			hist.step();
+		}
+		for i in 0..2 {
+			hist.update_state(i);
 		}
 		for i in 0..2 {
 			out.line(&json!({"hist": h, "seed": hseed.to_string(), "wallet": i, "steps": hist.steps[i]}));
